@@ -3,6 +3,7 @@ CONSTANTS
  Callers <- K1
  Mode = "mixed"
  ReCheck = TRUE
+ OwnStart = FALSE
  D7Stutter = TRUE
 INVARIANT StartSync
 CHECK_DEADLOCK FALSE
